@@ -137,6 +137,8 @@ static int XFN(send)(struct xcm_socket *__restrict s, const void *__restrict buf
 __CPROVER_requires(__CPROVER_is_fresh(s, XF_SIZE))
 __CPROVER_requires(CNT_RANGE(s) && GHOST_RANGE && XF_WHOLE_TX(s))
 __CPROVER_requires(__CPROVER_is_fresh(buf, TS_BUFSZ(len)))
+__CPROVER_requires((xv_k >= xv_tx_off + (long)SB(s).wire_len - SENT(s) + 4 && xv_k < xv_tx_off + (long)SB(s).wire_len - SENT(s) + (long)MBUF_WIRE_MAX) ==> \
+                   (long)xv_mc == xv_k - (xv_tx_off + (long)SB(s).wire_len - SENT(s)) - 4)
 __CPROVER_requires(XF(s)->conn.bad ==> XF(s)->conn.badness_reason > 0)
 /* ghost constants naming entry values: byte xv_j of the pending frame, and the pending byte that will be stream byte xv_k */
 __CPROVER_requires((xv_j >= 0 && xv_j < (long)SB(s).wire_len) ==> XV_U8(SB(s).wire_data)[xv_j] == xv_g_sb_j)
@@ -294,7 +296,7 @@ __CPROVER_ensures(XF(s)->conn.bad ==> (__CPROVER_return_value == -1 && xv_errno 
 __CPROVER_ensures((!XF(s)->conn.bad && RB(s).wire_len >= 4) ==> (HDR_OK(RX_HDR(s)) && RB(s).wire_len - 4 <= RX_HDR(s)))
 /* PO[C01,C07] buffer_msg.rv: 1 <=> exactly one complete, legal frame is buffered */
 __CPROVER_ensures(__CPROVER_return_value == 1 ==> (!XF(s)->conn.bad && RB(s).wire_len >= 4 && HDR_OK(RX_HDR(s)) && RB(s).wire_len == 4 + RX_HDR(s)))
-__CPROVER_ensures(__CPROVER_return_value == 0 ==> xv_rx_eof)
+__CPROVER_ensures(__CPROVER_return_value == 0 ==> (xv_rx_eof && (RB(s).wire_len < 4 || RB(s).wire_len - 4 < RX_HDR(s))))
 __CPROVER_ensures((__CPROVER_return_value == -1 && !XF(s)->conn.bad) ==> (xv_errno > 0 && (RB(s).wire_len < 4 || RB(s).wire_len - 4 < RX_HDR(s)) && \
                                                      (xv_errno != EAGAIN ==> xv_lower_dead)))
 /* PO[C17] buffer_msg.cnt */
@@ -310,7 +312,11 @@ __CPROVER_ensures(__CPROVER_return_value == 1 \
 static int XFN(receive)(struct xcm_socket *__restrict s, void *__restrict buf, size_t capacity)
 __CPROVER_requires(__CPROVER_is_fresh(s, XF_SIZE))
 __CPROVER_requires(CNT_RANGE(s) && GHOST_RANGE && XF_WHOLE_TX(s) && XF_WHOLE_RX(s))
-__CPROVER_requires(__CPROVER_is_fresh(buf, TR_BUFSZ(capacity)))
+/* capacity 0 is outside this contract: the documented behaviour "truncated to capacity" then consumes a message and
+ * returns 0, which a caller cannot tell from end-of-stream; callers pass a real buffer (stated in DESIGN.md) */
+__CPROVER_requires(capacity >= 1 && __CPROVER_is_fresh(buf, TR_BUFSZ(capacity)))
+/* the offset the memcpy model copies exactly is the payload offset of the tracked stream position */
+__CPROVER_requires((xv_k >= RX_START(s) + 4 && xv_k < RX_START(s) + (long)MBUF_WIRE_MAX) ==> (long)xv_mc == xv_k - RX_START(s) - 4)
 __CPROVER_requires(XF(s)->conn.bad ==> XF(s)->conn.badness_reason > 0)
 __CPROVER_assigns(SENT(s), SB(s).wire_len, CN(s, to_lower_bytes), CN(s, to_lower_msgs), LOWER_SEND_ASSIGNS)
 __CPROVER_assigns(RB(s).wire_len, RB(s).wire_capacity, RB(s).wire_data, xv_rx_off, xv_rx_eof)
